@@ -12,6 +12,7 @@ pub mod urlt;
 pub mod err;
 pub mod jsondoc;
 pub mod tok;
+pub mod intro;
 
 pub fn dispatch(op: &str, cfg: &RunCfg, d: &mut Driver) -> Option<OpResult> {
     Some(match op {
@@ -28,6 +29,7 @@ pub fn dispatch(op: &str, cfg: &RunCfg, d: &mut Driver) -> Option<OpResult> {
         "poll" => run_op::<poll::PollCase>(cfg, d),
         "tok" => run_op::<tok::TokCase>(cfg, d),
         "err" => run_op::<err::ErrCase>(cfg, d),
+        "intro" => run_op::<intro::IntroCase>(cfg, d),
         _ => return None,
     })
 }
